@@ -184,7 +184,11 @@ impl Indexable for ast::Def {
             Some(name_value) => {
                 let (name, define_loc) = index_name_value(name_value, ctx)?;
                 let def = Record::new(name, RecordKind::Def, define_loc);
-                let def_id = ctx.symbol_map.add_record(def, defset_id.is_none());
+                let def_id = if ctx.scopes.current_multiclass_id().is_some() {
+                    ctx.symbol_map.add_multiclass_def(def)
+                } else {
+                    ctx.symbol_map.add_record(def, defset_id.is_none())
+                };
                 if let Some(defset_id) = defset_id {
                     let defset = ctx.symbol_map.defset_mut(defset_id);
                     defset.add_def(def_id);
